@@ -9,7 +9,7 @@ LEVEL = 'exploration'
 RULE = ('all time-only programs of the grammar (roots x scripts over D/EQ/GE/LT/INSTANT/ETERNITY with '
         'colliding small dates, wrapped in scope.do(after|at) and until(delay|date)), for 3 start times; connectives of time '
         'atoms in every nesting; 5 (thorough: 6) activities with delay plans that keep many distinct dates pending; run(till=...) for every '
-        'start time; one condition object shared by several waits and guards; delays / dates / ticker periods of 2**-32 and 2**-40; '
+        'start time; tickers created before they are iterated; the alternative wait-queue backend; one condition object shared by several waits and guards; delays / dates / ticker periods of 2**-32 and 2**-40; '
         'non-trivial = at least two activities have operations ending in the same time step, or an operation '
         'can never resume, or a date is already reached/past when awaited')
 ASSUMPTIONS = [
@@ -171,6 +171,28 @@ def cases(tier):
                 for s2 in ([['D', 1]], [['WAIT', K], ['INSTANT']], [['UNTIL', 'x', ['DELAY', 1], [['WAIT', K]]], ['D', 3]],
                            [['UNTIL', 'x', K, [['D', 4]]], ['INSTANT']]):
                     progs.append({'start': st, 'conds': {'K': spec}, 'roots': [['a', s1], ['b', s2]]})
+    # (one delay object `time + d` shared by overlapping waits: each wait lasts d from its own beginning)
+    for st in STARTS[:2]:
+        K = ['C', 'K']
+        for d in (2, 3):
+            for s1 in ([['WAIT', K], ['WAIT', K]], [['D', 1], ['WAIT', K], ['INSTANT']], [['UNTIL', 'u', K, [['D', 5]]], ['INSTANT']],
+                       [['UNTIL', 'u', ['DELAY', 1], [['WAIT', K]]], ['WAIT', K]]):
+                for s2 in ([['WAIT', K]], [['D', 1], ['WAIT', K]], [['D', 2], ['UNTIL', 'x', K, [['D', 9]]], ['INSTANT']], [['D', 1], ['D', 1], ['WAIT', K]]):
+                    progs.append({'start': st, 'conds': {'K': ['DELAY', d]}, 'roots': [['a', s1], ['b', s2], ['c', [['D', 1], ['WAIT', K]]]]})
+    # family L: interval()/delay() iterators that are created some time before they are iterated
+    for st in STARTS[:2]:
+        for kind in ('INTERVAL', 'DELAYLOOP'):
+            for period in (1, 2):
+                for pre in (1, 3):
+                    for bodies in ([[], []], [[['D', 1]], []], [[['INSTANT']], [['D', 1]], []]):
+                        progs.append({'start': st, 'roots': [['a', [[kind, period, len(bodies), bodies, pre], ['INSTANT']]],
+                                                             ['b', [['D', 1], ['GE', 3]]]]})
+    # family M: the programs with many pending dates (H) and a slice of the others on the alternative queue backend
+    extra = [p for p in progs if len(p['roots']) >= 5][::7] + progs[::97]
+    for p in extra:
+        q = dict(p)
+        q['_waitq'] = 'SD'
+        progs.append(q)
     # drop programs that are not valid usim programs (start date in the past)
     valid = []
     for p in progs:
